@@ -15,6 +15,7 @@ import RbV.Lemmas.LcskppFinal
 import RbV.Lemmas.SdpkppUnion
 import RbV.Lemmas.KmerHash
 import RbV.Lemmas.Expand
+import RbV.Thm.GenSrcLcskpp
 /-!
 # C19 — k-mer / q-gram indexing and sparse chaining are exact
 
@@ -721,6 +722,63 @@ theorem lcskpp_model_path_ascending (ms : List M) (k : Nat) (hk : 0 < k) (hs : m
   ⟨r, h1, h6⟩
 
 end lcskpp_model
+
+/-! ## `sparse::lcskpp` — the source text itself (translated on every run: `RbV/Gen/SrcLcskpp.lean`, builder gensparse)
+
+`sort_unstable` and `binary_search` are std, not rust-bio: the translated function takes them as parameters and the
+theorems hold for **every** pair meeting the contracts `Rs.SortOk` (a permutation, ascending in the derived order of the
+event triples the translated text builds: the sort *key* — coordinates, then `idx` / `idx + len` — is part of the text) and
+`Rs.BSearchOk`.  `GenSrcLcskpp.Bnd`: fewer than 2³¹ matches, every coordinate `+ k` fits `u32`. -/
+section lcskpp_source
+open RbV.Rs RbV.Model.Lcskpp RbV.Lemmas.Lcskpp RbV.Thm.GenSrcLcskpp
+
+/-- **`lcskpp` as written in the source = the mirror model**: same path, same score, same `dp_vector`, no panic (no index
+out of range, no overflow, the sortedness assertion holds), the traceback loop ends by its own condition — for every
+strictly sorted match list, `k ≥ 1`, and every `sort_unstable` / `binary_search` meeting the contracts of std -/
+theorem lcskpp_source_eq_model (sortEv : List Ev → List Ev) (bs : List M → M → Except Nat Nat) (hsort : SortOk sortEv)
+    (hbs : BSearchOk bs) (ms : List M) (k : Nat) (hk : 0 < k) (hs : ms.Pairwise lexLt) (hB : Bnd ms k) :
+    ∃ r, lcskpp ms k = .ok r ∧ Gen.SrcLcskpp.lcskpp sortEv bs ms k = Res.ok (r.path, r.score, r.dp) :=
+  GenSrcLcskpp.lcskpp_eq_model sortEv bs hsort hbs ms k hk hs hB
+
+/-- **the translated `lcskpp` returns a valid chain of maximum LCSk++ score**: it does not panic; its path is a valid chain
+over the matches; the LCSk++ score of that chain is the reported `score`; the score is the optimum `lcskDP`; no valid chain
+over the matches scores more.  (Stated on what the property fixes — *which* optimal chain is returned is not part of the
+statement.) -/
+theorem lcskpp_source_valid_optimal (sortEv : List Ev → List Ev) (bs : List M → M → Except Nat Nat) (hsort : SortOk sortEv)
+    (hbs : BSearchOk bs) (ms : List M) (k : Nat) (hk : 0 < k) (hs : ms.Pairwise lexLt) (hB : Bnd ms k) :
+    ∃ path sc dp, Gen.SrcLcskpp.lcskpp sortEv bs ms k = Res.ok (path, sc, dp) ∧ validChain ms k path = true ∧
+      score k (pathMatches ms path) = sc ∧ sc = lcskDP ms k ∧
+      ∀ c, Chain k c → (∀ e ∈ c, e ∈ ms) → score k c ≤ sc := by
+  obtain ⟨r, h1, h2⟩ := GenSrcLcskpp.lcskpp_eq_model sortEv bs hsort hbs ms k hk hs hB
+  obtain ⟨r', h1', h3, h4, h5, h6⟩ := lcskpp_model_optimal ms k hk hs
+  have : r' = r := by rw [h1] at h1'; cases h1'; rfl
+  subst this
+  exact ⟨r'.path, r'.score, r'.dp, h2, h3, h4, h5, h6⟩
+
+/-- on an unsorted list the translated function panics at its assertion is *not* claimed; what is claimed for the empty
+list: the empty result -/
+theorem lcskpp_source_empty (sortEv : List Ev → List Ev) (bs : List M → M → Except Nat Nat) (k : Nat) :
+    Gen.SrcLcskpp.lcskpp sortEv bs [] k = Res.ok ([], 0, []) := by
+  simp [Gen.SrcLcskpp.lcskpp]
+
+/-- the translated `FenwickTree::new` (`vec![T::default(); len + 1]`) is the model's `new` -/
+theorem fenwick_new_source_eq_model (len : Nat) (h : len + 1 < 2 ^ 64) :
+    Gen.SrcFenwickNew.new ((0, 0) : Nat × Nat) len = Res.ok (Model.Fenwick.new (0, 0) len) :=
+  GenSrcLcskpp.fenwickNew_eq_model _ len h
+
+/-- the contracts are satisfiable: merge sort by the derived order, first-position search -/
+theorem lcskpp_source_contracts_satisfiable : SortOk stdSortEv ∧ BSearchOk stdBsM := ⟨stdSortEv_ok, stdBsM_ok⟩
+
+example : ∃ path dp, Gen.SrcLcskpp.lcskpp stdSortEv stdBsM [(0, 0), (1, 1), (2, 2), (5, 5), (6, 9)] 3 = Res.ok (path, 8, dp) ∧
+    validChain [(0, 0), (1, 1), (2, 2), (5, 5), (6, 9)] 3 path = true := by
+  obtain ⟨path, sc, dp, h1, h2, _, h4, _⟩ := lcskpp_source_valid_optimal stdSortEv stdBsM stdSortEv_ok stdBsM_ok
+    [(0, 0), (1, 1), (2, 2), (5, 5), (6, 9)] 3 (by decide) (by simp [lexLt])
+    ⟨by decide, by intro m hm; simp at hm; rcases hm with rfl | rfl | rfl | rfl | rfl <;> decide⟩
+  have : sc = 8 := by rw [h4]; decide
+  subst this
+  exact ⟨path, dp, h1, h2⟩
+
+end lcskpp_source
 
 /-! ## `sdpkpp` and `sdpkpp_union_lcskpp_path` (mirror models `RbV/Model/Sdpkpp.lean`) -/
 section sdpkpp_model
